@@ -167,7 +167,17 @@ type c12Case struct {
 	Call      string     `json:"call"`
 	Version   string     `json:"version"`
 	Plans     []respPlan `json:"responses"`
+	// Reregistered (call Activate only): the application has registered other payload types for the operation at run time,
+	// so a well-formed answer decodes to a Go type the fluent builder does not expect (registration restored afterwards)
+	Reregistered bool `json:"operation_reregistered,omitempty"`
 }
+
+// altActivateResp is what an application might register for Activate in place of the library's response payload.
+type altActivateResp struct {
+	UniqueIdentifier string
+}
+
+func (*altActivateResp) Operation() kmip.Operation { return kmip.OperationActivate }
 
 func payloadTree(rt *rapid.T, op kmip.Operation) string {
 	for _, e := range gen.Ops {
@@ -506,6 +516,10 @@ func c12Run(c c12Case) (sig string, err error) {
 		return "harness-dial", derr
 	}
 	defer cl.Close()
+	if c.Reregistered && c.Call == "Activate" {
+		kmip.RegisterOperationPayload[payloads.ActivateRequestPayload, altActivateResp](kmip.OperationActivate)
+		defer kmip.RegisterOperationPayload[payloads.ActivateRequestPayload, payloads.ActivateResponsePayload](kmip.OperationActivate)
+	}
 	var got kmip.OperationPayload
 	var cerr error
 	if perr := safely(func() error { got, cerr = call.Exec(cl, ctx); return nil }); perr != nil {
@@ -565,6 +579,9 @@ func TestC12Responses(t *testing.T) {
 	}
 	rapid.Check(t, func(rt *rapid.T) {
 		c := c12Case{Call: rapid.SampledFrom(names).Draw(rt, "call"), Version: rapid.SampledFrom(gen.Versions).Draw(rt, "version").String()}
+		if c.Call == "Activate" {
+			c.Reregistered = rapid.IntRange(0, 2).Draw(rt, "reregistered") == 0
+		}
 		switch c.Call {
 		case "Dial":
 			c.Plans = []respPlan{drawRespPlan(rt, kmip.OperationDiscoverVersions, 1)}
